@@ -166,10 +166,14 @@ def rule_rename_plumbing(repo: Repo, rep: Report, rule: str) -> None:
 
 def rule_recursive_registration(repo: Repo, rep: Report, rule: str) -> None:
     conv = repo.module(CONV)
+    from sa.flatten import flatten as _flc
+
     for fname in ("_register_structure_hooks_recursively", "_register_unstructure_hooks_recursively"):
         fn = conv.functions.get(fname)
         if fn is None:
             raise AnalysisError(f"anchor vanished: {fname}")
+        if not any(isinstance(n, ast.For) for n in own_nodes(fn.node)):
+            fn = _flc(fn)  # the field loop was moved into a shared helper
         L = Locals(fn.node)
         loops = [n for n, _ in L.loops_over("dataclasses.fields(ANY_c)") + L.loops_over("fields(ANY_c)") if isinstance(n, ast.For)]
         sub = f"{conv.relpath}:{fname} descends into every field type"
